@@ -363,6 +363,18 @@ def zoo():
     add("spider-deg4", 9, [(0, 1), (1, 2), (0, 3), (3, 4), (0, 5), (5, 6), (0, 7), (7, 8)])
     add("three-triangles-chain", 7, [(0, 1), (1, 2), (0, 2), (2, 3), (3, 4), (2, 4), (4, 5), (5, 6), (4, 6)])
     add("petersen", 10, [(i, (i + 1) % 5) for i in range(5)] + [(5 + i, 5 + (i + 2) % 5) for i in range(5)] + [(i, i + 5) for i in range(5)])
+    # the same path / cycle with its edges listed in *merge order* (disjoint pieces first, joined later: (0,1)(2,3)(4,5)(6,7)(1,2)(5,6)(3,4))
+    def merge_order(n, closed):
+        es, step = [], 1
+        while step < n:
+            es += [(i + step - 1, i + step) for i in range(0, n - step, 2 * step)]
+            step *= 2
+        if closed:
+            es.append((n - 1, 0))
+        return es
+
+    add("path8-merge-order", 8, merge_order(8, False))
+    add("cycle8-merge-order", 8, merge_order(8, True))
     out = []
     for name, n, edges in base:
         out.append((name, n, edges))
